@@ -11,7 +11,7 @@ import ast
 from typing import Dict, List, Optional, Set, Tuple
 
 from ..cfg import CFG
-from ..core import (AnalysisError, FuncInfo, ancestors, ap, atoms, call_attr, calls, enclosing_fn, enclosing_stmt,
+from ..core import (AnalysisError, FuncInfo, ancestors, ap, atoms, call_attr, calls, enclosing_fn, enclosing_stmt, is_none_test,
                     facts, find_calls, handler_catches_all, handler_names, handler_reraises, norm, parent, src, stores,
                     try_contexts, walk, FUNC_TYPES)
 from .common import (call_index, store_index, is_logging_call, cfg_node_calls, cfg_node_expr, cfg_node_fallible, cfg_search, class_methods_reachable,
@@ -337,6 +337,8 @@ def r1(ctx):
                 for tc in try_contexts(x, g.node))
             if contained:
                 continue
+            if _suffix_fact(facts(x, g.node), "." + SWALLOW, False):
+                continue     # deliberate: exceptions are only let through when the proxy is told not to swallow them
             n_raise += 1
             ok, why = False, "the raise is unconditional on the call shape"
             for e, pol in facts(x, g.node):
@@ -407,21 +409,41 @@ def _raise_evidence(repo, cls, mname: str, depth=3, seen=None) -> Optional[Tuple
         return None
     seen.add(m.full)
     text, names = None, set()
+
+    def escaping(node, raised: Set[str]) -> Set[str]:
+        """Exception class names from `raised` that no try in this method (with `node` in its body) handles."""
+        left = set(raised)
+        for tc in try_contexts(node, m.node):
+            if tc.section != "body":
+                continue
+            for h in tc.node.handlers:
+                if handler_reraises(h) == "always":
+                    continue
+                if handler_catches_all(h):
+                    return set()
+                left -= set(handler_names(h))
+        return left
     for x in walk(m.node):
         if isinstance(x, ast.Assert):
-            text = text or f"{m.qual} contains `{norm(x)}`"
-            names.add("AssertionError")
+            got = escaping(x, {"AssertionError"})
+            if got:
+                text = text or f"{m.qual} contains `{norm(x)}`"
+                names |= got
         elif isinstance(x, ast.Raise):
-            text = text or f"{m.qual} contains `{norm(x)}`"
             exc = x.exc.func if isinstance(x.exc, ast.Call) else x.exc
-            names.add((ap(exc) or "*").split(".")[-1] if exc is not None else "*")
+            got = escaping(x, {(ap(exc) or "*").split(".")[-1] if exc is not None else "*"})
+            if got:
+                text = text or f"{m.qual} contains `{norm(x)}`"
+                names |= got
     if depth > 0:
         for c in calls(m.node):
             if isinstance(c.func, ast.Attribute) and ap(c.func.value) in ("self", "cls"):
                 r = _raise_evidence(repo, cls, c.func.attr, depth - 1, seen)
                 if r:
-                    text = text or r[0]
-                    names |= r[1]
+                    got = escaping(c, r[1])
+                    if got:
+                        text = text or r[0]
+                        names |= got
     return (text, names) if text else None
 
 
@@ -542,19 +564,33 @@ def _one_shot_obligation(ctx, R, repo, nf, fi, cfg, loop, head, sync, deferred, 
         return    # this Event implementation has no one-shot subscriptions
     # unsubscribe statements guarded by exactly `one_shot`
     gates = []
-    for c in [c for st in body for c in calls(st) if call_attr(c) == "unsubscribe" and enclosing_fn(c) is fi.node]:
-        fs = facts(c, root)
-        if fs and all(is_os(e) and pol for e, pol in fs):
-            for a in ancestors(c):
-                if isinstance(a, ast.If) and any(is_os(e) and pol for e, pol in atoms(a.test, True)):
-                    gates.append(a)
-                    break
-    gate_nodes = {n for n in cfg.nodes if any(n.ast is g for g in gates)}
+    unsub_methods = {"unsubscribe"}
+    if fi.cls is not None:
+        for _ in range(2):
+            for nm, mm in fi.cls.methods.items():
+                if nm not in unsub_methods and any(isinstance(c.func, ast.Attribute) and ap(c.func.value) == "self"
+                                                   and c.func.attr in unsub_methods for c in calls(mm.node)):
+                    unsub_methods.add(nm)
+    unsub_calls = [c for st in body for c in calls(st) if call_attr(c) in unsub_methods and enclosing_fn(c) is fi.node]
+
+    def gate_nodes_for(inv):
+        """Unsubscribe statements whose only condition beyond those the invocation itself runs under is `one_shot`."""
+        common = {(norm(e), pol) for e, pol in facts(inv, root)}
+        gates = []
+        for c in unsub_calls:
+            extra = [(e, pol) for e, pol in facts(c, root) if (norm(e), pol) not in common]
+            if extra and all(is_os(e) and pol for e, pol in extra):
+                for a in ancestors(c):
+                    if isinstance(a, ast.If) and any(is_os(e) and pol for e, pol in atoms(a.test, True)):
+                        gates.append(a)
+                        break
+        return {n for n in cfg.nodes if any(n.ast is g for g in gates)}
     start = [head] if head is not None else [cfg.entry]
 
     def back(n):
         return n is head or (head is None and (n is cfg.exit or n is cfg.raise_exit))
     for c in invocations + tasks:
+        gate_nodes = gate_nodes_for(c)
         cn = set(cfg.stmt_nodes_containing(c))
         before = cfg_search(cfg, start, target=lambda n: n in cn, avoid=lambda n: n in gate_nodes, follow_exc=lambda n: False)
         after = cfg_search(cfg, list(cn), target=back, avoid=lambda n: n in gate_nodes, follow_exc=lambda n: n in cn or
@@ -696,6 +732,20 @@ def r2(ctx):
             ctx.ob(R, f"{fi.qual}: {norm(c)} inside a swallowing catch-all try within the loop",
                    _swallowing(c, loop if in_loop else fi.node), ctx.w(fi, c),
                    "subscriber callable not isolated by try/except inside the loop")
+        # subscriber callables handed to a helper of the class (predicate check extracted from the loop)
+        for c in [c for st in stmts for c in calls(st) if enclosing_fn(c) is fi.node]:
+            if isinstance(c.func, attr_t) and ap(c.func.value) in ("self", "cls") and fi.cls is not None:
+                hm = repo.lookup_method(fi.cls, c.func.attr)
+                if hm is None or hm is fi:
+                    continue
+                hp = [a.arg for a in hm.node.args.args][1:]
+                tp = {hp[i] for i, a in enumerate(c.args) if i < len(hp) and isinstance(a, ast.Name) and a.id in tainted}
+                for hc in [x for x in calls(hm.node) if isinstance(x.func, ast.Name) and x.func.id in tp]:
+                    contained = any(tc.section == "body" and any(handler_catches_all(h_) and handler_reraises(h_) == "never"
+                                                                 for h_ in tc.node.handlers) for tc in try_contexts(hc, hm.node))
+                    ok = contained or _swallowing(c, loop if in_loop else fi.node)
+                    ctx.ob(R, f"{hm.qual}: {norm(hc)} (run for each subscriber of {fi.qual}) is isolated", ok, ctx.w(hm, hc),
+                           "a raising subscriber callable propagates through the helper into the notify loop")
         _one_shot_obligation(ctx, R, repo, nf, fi, cfg, loop if in_loop else None, head, sync, deferred, tainted)
         for c in deferred:
             d = enclosing_fn(c)
@@ -704,9 +754,20 @@ def r2(ctx):
                     and isinstance(n.ctx, ast.Load)]
             ok = isinstance(d, ast.AsyncFunctionDef) and bool(uses)
             for u in uses:
-                call = parent(u)
-                outer = parent(call) if isinstance(call, ast.Call) and call.func is u else None
-                ok = ok and isinstance(outer, ast.Call) and call_attr(outer) == "create_logged_task"
+                cur = u
+                pc_ = parent(cur)
+                if isinstance(pc_, ast.Call) and pc_.func is not cur and call_attr(pc_) == "partial" and any(a is cur for a in pc_.args):
+                    cur = pc_        # functools.partial(wrapper, ...) binds the loop values, the result is what gets called
+                curs = [cur]
+                asg = parent(cur)
+                if isinstance(asg, ast.Assign) and asg.value is cur and len(asg.targets) == 1 and isinstance(asg.targets[0], ast.Name):
+                    curs = [n for n in walk(fi.node, into_defs=True) if isinstance(n, ast.Name) and n.id == asg.targets[0].id
+                            and isinstance(n.ctx, ast.Load)]
+                    ok = ok and bool(curs)
+                for cur in curs:
+                    call = parent(cur)
+                    outer = parent(call) if isinstance(call, ast.Call) and call.func is cur else None
+                    ok = ok and isinstance(outer, ast.Call) and call_attr(outer) == "create_logged_task"
             ctx.ob(R, f"{fi.qual}: deferred {norm(c)} runs in create_logged_task", ok, ctx.w(fi, c),
                    "async handler not isolated in its own logged task")
 
@@ -941,6 +1002,20 @@ WIRE_OWNERS = {
 }
 
 
+def _owned_by_callers(repo, f: FuncInfo, owners: Set[str], depth=3) -> bool:
+    """f is a tabled owner, or a private method (of a class an owner lives in) every call site of which - by
+    name over the whole tree, invoked on self/cls - lies in an owner or in such a helper."""
+    if f.qual in owners:
+        return True
+    owner_classes = {o.split(".")[0] for o in owners}
+    if depth <= 0 or f.cls is None or not f.name.startswith("_") or f.name.startswith("__") or \
+            not any(c.name in owner_classes for c in repo.mro(f.cls)):
+        return False
+    sites = call_index(repo).get(f.name, [])
+    return bool(sites) and all(isinstance(c.func, ast.Attribute) and ap(c.func.value) in ("self", "cls")
+                               and _owned_by_callers(repo, g, owners, depth - 1) for g, c in sites)
+
+
 def r5(ctx):
     repo = ctx.repo
     R = "C07.R5"
@@ -950,7 +1025,7 @@ def r5(ctx):
         cs = call_index(repo).get(callee, [])
         ctx.floor(R, f"{callee} call sites", len(cs), 1)
         for f, c in cs:
-            ctx.ob(R, f"{f.qual}: {norm(c.func)}(...) by an owner of {callee}", f.qual in owners, ctx.w(f, c),
+            ctx.ob(R, f"{f.qual}: {norm(c.func)}(...) by an owner of {callee}", _owned_by_callers(repo, f, owners), ctx.w(f, c),
                    f"{callee} called outside {sorted(owners)}: a second road to the wire bypasses the finalized guard")
     cs = call_index(repo).get("sendto", [])
     ctx.floor(R, "sendto call sites", len(cs), 1)
@@ -1070,6 +1145,8 @@ def r8(ctx):
                             inner_colls.add(selfref + "." + st.path.split(".", 1)[1])
 
             def unsub_loops(root, who, names):
+                """Loops `for n in <coll>: n.unsubscribe(<who>)`, or calls of a helper whose body is such a loop
+                over one of its parameters (`self._unsubscribe_all(<coll>, <who>)`)."""
                 out = []
                 for loop in [l for l in walk(root, into_defs=False) if isinstance(l, (ast.For, ast.AsyncFor))]:
                     if ap(loop.iter) in names:
@@ -1077,13 +1154,34 @@ def r8(ctx):
                         if any(c.args and ap(c.args[0]) == who and isinstance(c.func, ast.Attribute)
                                and ap(c.func.value) == lv for c in find_calls(loop, "unsubscribe", into_defs=False)):
                             out.append(loop)
+                for c in calls(root, into_defs=False):
+                    hm = None
+                    if isinstance(c.func, ast.Attribute) and ap(c.func.value) in ("self", "cls"):
+                        hm = repo.lookup_method(mh, c.func.attr)
+                    elif isinstance(c.func, ast.Name):
+                        cs_ = [g for g in repo.funcs.get(c.func.id, []) if g.module is m.module and g.cls is None and g.parent_fn is None]
+                        hm = cs_[0] if len(cs_) == 1 else None
+                    if hm is None:
+                        continue
+                    hp = [a.arg for a in hm.node.args.args]
+                    if hm.cls is not None and not any((ap(d) or "") == "staticmethod" for d in hm.node.decorator_list):
+                        hp = hp[1:]
+                    bound = dict(zip(hp, [ap(a) for a in c.args]))
+                    bound.update({k.arg: ap(k.value) for k in c.keywords if k.arg})
+                    for loop in [l for l in hm.node.body if isinstance(l, (ast.For, ast.AsyncFor))]:
+                        lv = ap(loop.target)
+                        if bound.get(ap(loop.iter) or "") in names and any(
+                                cc.args and bound.get(ap(cc.args[0]) or "") == who and isinstance(cc.func, ast.Attribute)
+                                and ap(cc.func.value) == lv for cc in find_calls(loop, "unsubscribe", into_defs=False)):
+                            out.append(c)
                 return out
             # (a) inside the subscriber, on every normal path
             ok_a = False
             inner = unsub_loops(body, selfref, inner_colls)
             if inner:
                 hcfg = CFG(body)
-                pn = {n for n in hcfg.nodes if n.kind == "loop" and any(n.ast is l for l in inner)}
+                pn = {n for n in hcfg.nodes if (n.kind == "loop" and any(n.ast is l for l in inner)) or
+                      any(isinstance(l, ast.Call) and n in hcfg.stmt_nodes_containing(l) for l in inner)}
                 ok_a = cfg_search(hcfg, [hcfg.entry], target=lambda n: n is hcfg.exit, avoid=lambda n: n in pn,
                                   follow_exc=lambda n: False) is None
             # (b) in a finally of the registering method
@@ -1104,7 +1202,8 @@ def r9(ctx):
     ctx.rule(R, "AddonManager.handle_lludp_message: a claim the manager makes itself (`return <truthy constant>`, i.e. not "
                 "a hook's verdict) is reached only after drop_message(message) - on every path, exceptional ones "
                 "included; otherwise the tail of handle_proxied_packet neither sends nor drops/acks the message")
-    f = repo.fn("AddonManager.handle_lludp_message")
+    from .common import inlined_funcinfo, single_def
+    f = inlined_funcinfo(repo, repo.fn("AddonManager.handle_lludp_message"), depth=2)   # claims made in split-off helpers
     params = [a.arg for a in f.node.args.args]
     ctx.require(len(params) >= 2, f"{R}: handle_lludp_message lost its parameters")
     msg = params[-1]
@@ -1120,6 +1219,11 @@ def r9(ctx):
             continue
         seen_keys.add(id(r.ast))
         flags = {e.id for e, pol in facts(r.ast, f.node) if isinstance(e, ast.Name) and pol}
+        for _ in range(4):    # a flag that is a plain copy of another local (result of an inlined helper)
+            for g_ in list(flags):
+                d = single_def(f.node, g_)
+                if isinstance(d, ast.Name):
+                    flags.add(d.id)
         # a local flag that was cleared cannot let the return through any more
         kill = {n for n in cfg.nodes if n.kind == "stmt" and isinstance(n.ast, ast.Assign) and len(n.ast.targets) == 1
                 and isinstance(n.ast.targets[0], ast.Name) and n.ast.targets[0].id in flags
@@ -1175,12 +1279,139 @@ def r9(ctx):
                "without sending, dropping or acking it", cfg.describe_path(path) if path else None)
 
 
+# --------------------------------------------------------------------------- R10
+
+_STR_ONLY = {"startswith", "endswith", "split", "rsplit", "partition", "rpartition", "index", "rindex", "find", "rfind",
+             "strip", "lstrip", "rstrip", "removeprefix", "removesuffix", "replace", "count"}
+_RE_OPTIONAL = {"match", "fullmatch", "search"}
+
+
+def _forward_path(repo, entry: FuncInfo, depth=2) -> List[FuncInfo]:
+    """entry plus the repo functions it calls outside any try body (cls./self. methods, Class.method of a repo
+    class, same-module functions): code whose exception escapes the entry point."""
+    out, frontier = [entry], [entry]
+    for _ in range(depth):
+        nxt = []
+        for f in frontier:
+            for c in calls(f.node, into_defs=False):
+                if any(tc.section == "body" and any(handler_catches_all(h) for h in tc.node.handlers)
+                       for tc in try_contexts(c, f.node)):
+                    continue
+                fn, cand = c.func, None
+                if isinstance(fn, ast.Attribute):
+                    rp = ap(fn.value)
+                    if rp in ("self", "cls") and f.cls is not None:
+                        cand = repo.lookup_method(f.cls, fn.attr)
+                    elif rp:
+                        ci = repo.resolve_class(rp, f.module)
+                        cand = repo.lookup_method(ci, fn.attr) if ci is not None else None
+                elif isinstance(fn, ast.Name):
+                    cs_ = [g for g in repo.funcs.get(fn.id, []) if g.cls is None and g.parent_fn is None and g.module is f.module]
+                    cand = cs_[0] if len(cs_) == 1 else None
+                if cand is not None and cand not in out:
+                    out.append(cand)
+                    nxt.append(cand)
+        frontier = nxt
+    return out
+
+
+def r10(ctx):
+    repo = ctx.repo
+    R = "C07.R10"
+    ctx.rule(R, "the part of handle_lludp_message (and of the helpers it calls outside a try) that runs before dispatch "
+                "contains no partial operation on wire data: a str-only method with a str argument on a value read from "
+                "a message block needs a dominating isinstance(x, str) (such a value can be JankStringyBytes); the "
+                "result of re.match/fullmatch/search is tested before it is used; a weakref.proxy field is never used "
+                "as a truth value in the scheduler the entry points call")
+    from .common import origin
+    entry = repo.fn("AddonManager.handle_lludp_message")
+    fns = _forward_path(repo, entry, depth=2)
+    ctx.floor(R, "functions on the pre-dispatch path of handle_lludp_message", len(fns), 3)
+    n_str = n_re = 0
+
+    def unguarded(node, f):
+        return not any(tc.section == "body" and any(handler_catches_all(h) for h in tc.node.handlers)
+                       for tc in try_contexts(node, f.node))
+    for f in fns:
+        def block_read(e):
+            e = origin(f.node, e)
+            return isinstance(e, ast.Subscript) and isinstance(e.value, ast.Subscript)
+        for c in calls(f.node, into_defs=False):
+            if not (isinstance(c.func, ast.Attribute) and unguarded(c, f)):
+                continue
+            recv = c.func.value
+            if c.func.attr in _STR_ONLY and c.args and isinstance(c.args[0], ast.Constant) and isinstance(c.args[0].value, str) \
+                    and block_read(recv):
+                n_str += 1
+                ok = any(pol and isinstance(e, ast.Call) and ap(e.func) == "isinstance" and len(e.args) == 2
+                         and norm(e.args[0]) == norm(recv) and "str" in norm(e.args[1]) for e, pol in facts(c, f.node))
+                ctx.ob(R, f"{f.qual}: `{norm(c)}` on message data only after isinstance({norm(recv)}, str)", ok, ctx.w(f, c),
+                       "a variable that could not be decoded as text arrives as JankStringyBytes: a str argument raises "
+                       "TypeError here, outside any try - no hook runs, the message is neither logged nor forwarded")
+        # Optional regex results
+        for st in stores(f.node, into_defs=False):
+            if st.kind == "assign" and isinstance(st.target, ast.Name) and isinstance(st.value, ast.Call) and \
+                    isinstance(st.value.func, ast.Attribute) and st.value.func.attr in _RE_OPTIONAL and unguarded(st.node, f):
+                nm = st.path
+                for x in walk(f.node):
+                    use = None
+                    if isinstance(x, ast.Subscript) and isinstance(x.value, ast.Name) and x.value.id == nm:
+                        use = x
+                    elif isinstance(x, ast.Attribute) and isinstance(x.value, ast.Name) and x.value.id == nm:
+                        use = x
+                    if use is None:
+                        continue
+                    n_re += 1
+                    ok = False
+                    for e, pol in facts(use, f.node):
+                        nt = is_none_test(e)
+                        if (ap(e) == nm and pol) or (nt is not None and nt[0] == nm and pol != nt[1]):
+                            ok = True
+                    ctx.ob(R, f"{f.qual}: `{norm(use)}` only after `{nm}` matched", ok, ctx.w(f, use),
+                           f"`{norm(st.value)}` returns None when the text does not match: TypeError outside any try on "
+                           f"the packet path")
+    ctx.ob(R, "pre-dispatch path of handle_lludp_message checked for partial operations on wire data", True, entry.where,
+           f"{[g.qual for g in fns]}: {n_str} str-only call(s) on block values, {n_re} regex result use(s)")
+
+    # weakref.proxy fields of the task scheduler (kill_matching_tasks is called bare from handle_* entry points)
+    am = repo.cls("AddonManager", ADDONS)
+    sched = repo.class_attr(am, "SCHEDULER")
+    sc = repo.resolve_class(ap(sched.func) or "", am.module) if isinstance(sched, ast.Call) else None
+    ctx.require(sc is not None, f"{R}: class of AddonManager.SCHEDULER not resolved")
+    mod = sc.module
+    proxies = set()
+    for x in ast.walk(mod.tree):
+        if isinstance(x, (ast.Assign, ast.AnnAssign)) and x.value is not None:
+            tg = x.targets[0] if isinstance(x, ast.Assign) else x.target
+            if isinstance(tg, ast.Attribute) and any(isinstance(y, ast.Call) and (ap(y.func) or "").endswith("weakref.proxy")
+                                                       for y in ast.walk(x.value)):
+                proxies.add(tg.attr)
+    n_truth = 0
+    for x in ast.walk(mod.tree):
+        tests = []
+        if isinstance(x, (ast.If, ast.While, ast.IfExp)):
+            tests = [x.test]
+        elif isinstance(x, ast.BoolOp):
+            tests = x.values
+        elif isinstance(x, ast.UnaryOp) and isinstance(x.op, ast.Not):
+            tests = [x.operand]
+        for t in tests:
+            if isinstance(t, ast.Attribute) and t.attr in proxies and not (isinstance(t.value, ast.Name) and t.value.id == "self"
+                                                                          and False):
+                n_truth += 1
+                ctx.ob(R, f"{mod.rel}: weakref.proxy field `{norm(t)}` is not used as a truth value", False,
+                       f"{mod.rel}:{t.lineno}", "bool() of a dead weakref.proxy raises ReferenceError (it never means 'gone'): "
+                       "kill_matching_tasks runs bare inside handle_region_changed / handle_session_closed")
+    ctx.ob(R, f"{sc.name}: weakref.proxy fields {sorted(proxies)} never truth-tested", n_truth == 0, f"{mod.rel}:{sc.node.lineno}")
+
+
 r4 = r6 = r4_r6
 
 
 def run(ctx):
     r8(ctx)
     r9(ctx)
+    r10(ctx)
     r1(ctx)
     r2(ctx)
     r3(ctx)
